@@ -30,6 +30,7 @@ THEOREMS = [
     dict(name="Snow.C04.run_sched", clause="any object state: a run uses the canonical draw schedule of its seed and shape", strength="full"),
     dict(name="Snow.C04.run_schedule_canonical", clause="every history ++ [seed = s, run] has the schedule of a fresh Snowflake(seed=s).run()", strength="full"),
     dict(name="Snow.C04.run_outcome_canonical", clause="every history incl. seed_v assignments and property reads: generator schedule and vial deviates (seed_v, N) of the run equal those of a fresh Snowflake(seed=s, seed_v=v)", strength="full"),
+    dict(name="Snow.C04.run_config_current", clause="every history incl. in-place edits / replacement of the attached configuration: the run reads the configuration attached at that moment (and schedule, vial deviates as for a fresh object)", strength="full"),
     dict(name="Snow.C04.run_schedule_canonical_same_seed", clause="every history ++ [run] has the fresh schedule of the seed in force", strength="full"),
     dict(name="Snow.C04.record_independent", clause="events, schedules and object state do not depend on the deterministic storage selection", strength="full"),
     dict(name="Snow.C04.snowfall_mode_independent", clause="every mode, repetition count and chunking: task i has schedule canon(cfg, i)", strength="full"),
@@ -53,7 +54,7 @@ ASSUMPTIONS = [
     "deterministic storage selections only (a `random` selection consumes draws at construction - excluded by the property's wording)",
     "configuration (k, opcond, dt, constants) is not mutated between operations; N_vials may be reassigned (storeStates=None)",
 ]
-RULE = ("histories of up to 6 (quick) / 9 (thorough) operations new/seed=/seed_v=/`_buildHeatflowMatrices`/run/N_vials=/"
+RULE = ("histories of up to 6 (quick) / 9 (thorough) operations new/seed=/seed_v=/edits of the attached opcond and dt/`_buildHeatflowMatrices`/run/N_vials=/"
         "reads of H_shelf and H_int in both orders on real "
         "3x3-and-smaller shelves with and without shelf variability; Snowfall in sequential/async/sync x pool_size "
         "{1,2,3,5} x Nrep {1,2,5,9} (also run twice); a case is non-trivial when it contains a run whose statistics "
@@ -239,18 +240,44 @@ def _task_obs(S, mark, tag):
 # ---------------------------------------------------------------------------
 def _k(case):
     k = {"int": 20, "ext": 20, "s0": 20}
+    k.update((case.get("kw") or {}).get("k_mod") or {})
     if case["sigma"] is not None:
         k["s_sigma_rel"] = case["sigma"]
     return k
 
 
+DT = 5
 T_TOT = [1000]   # process time of the runs of the current case (set per case, see `_final_event`)
 
 
-def _opcond():
+def _spec(case, k=0):
+    """configuration number k of the case as a COMPLETE specification (0 = the base configuration)"""
+    base = {"rate": 0.1, "end": -45, "holding": None, "t_tot": T_TOT[0], "dt": DT, "how": "inplace"}
+    cfgs = case.get("cfgs") if case else None
+    if cfgs and k:
+        base.update(cfgs[k])
+    return base
+
+
+def _opcond(spec=None):
     from ethz_snow.operatingConditions import OperatingConditions
 
-    return OperatingConditions(t_tot=T_TOT[0], cooling={"rate": 0.1, "start": 5, "end": -45})
+    spec = spec or _spec(None)
+    hold = None if spec["holding"] is None else [dict(temp=t, duration=d) for t, d in spec["holding"]]
+    return OperatingConditions(t_tot=spec["t_tot"], cooling={"rate": spec["rate"], "start": 5, "end": spec["end"]},
+                               holding=hold)
+
+
+def _apply_cfg(S, spec):
+    """bring the attached configuration of a USED object to `spec`"""
+    if spec["how"] == "new":
+        S.opcond = _opcond(spec)
+    else:   # edit the attached OperatingConditions object in place
+        S.opcond.cooling["rate"] = spec["rate"]
+        S.opcond.cooling["end"] = spec["end"]
+        S.opcond.holding = None if spec["holding"] is None else [dict(temp=t, duration=d) for t, d in spec["holding"]]
+        S.opcond.t_tot = spec["t_tot"]
+    S.dt = spec["dt"]
 
 
 def _final_event(case):
@@ -276,20 +303,44 @@ def _final_event(case):
     return cand[min(f["rank"], len(cand) - 1)]
 
 
-DT = 5
+def _kw(case):
+    """pass-through keyword arguments of the case (Snowfall hands them to its template)"""
+    kw = dict(case.get("kw") or {})
+    if "configPath" in kw:
+        kw["configPath"] = _config_file(kw["configPath"])
+    if "k_mod" in kw:
+        kw.pop("k_mod")
+    return kw
 
 
-def _flake(case, seed, nv, store=None, seed_v=2024):
+def _config_file(text):
+    d = core.VERIF / ".cache" / "c04"
+    d.mkdir(parents=True, exist_ok=True)
+    p = d / (hashlib.sha1(text.encode()).hexdigest()[:10] + ".yaml")
+    if not p.exists():
+        tmp = d / f"{p.name}.{os.getpid()}.tmp"
+        tmp.write_text(text)
+        os.replace(tmp, p)
+    return str(p)
+
+
+def _flake(case, seed, nv, store=None, seed_v=None, cfg=0):
     from ethz_snow.snowflake import Snowflake
 
-    return Snowflake(k=_k(case), N_vials=tuple(nv), dt=DT, seed=seed, seed_v=seed_v, opcond=_opcond(),
-                     storeStates=store)
+    spec = _spec(case, cfg)
+    kw = _kw(case)
+    kw.pop("seed", None)          # Snowfall chooses the seeds itself
+    kw.pop("storeStates", None)   # ... and never stores states
+    if seed_v is not None:
+        kw["seed_v"] = seed_v
+    kw.setdefault("dt", spec["dt"])
+    return Snowflake(k=_k(case), N_vials=tuple(nv), seed=seed, opcond=_opcond(spec), storeStates=store, **kw)
 
 
-def _fresh(case, seed, nv, cache, seed_v=2024):
-    key = (seed, tuple(nv), seed_v)
+def _fresh(case, seed, nv, cache, seed_v=None, cfg=0):
+    key = (seed, tuple(nv), seed_v, cfg)
     if key not in cache:
-        S = _flake(case, seed, nv, seed_v=seed_v)
+        S = _flake(case, seed, nv, seed_v=seed_v, cfg=cfg)
         S.run()
         cache[key] = _digest(S.stats)
     return cache[key]
@@ -299,11 +350,16 @@ def _run_history(case, store=None):
     S = None
     ops_obs = []
     fresh = {}
+    cfg = 0
     for op in case["ops"]:
         mark = _begin()
         o = {"op": op}
         if op[0] == "new":
             S = _flake(case, op[1], op[2:5], store)
+            cfg = 0
+        elif op[0] == "editCfg":
+            cfg = op[1]
+            _apply_cfg(S, _spec(case, cfg))
         elif op[0] == "setSeed":
             S.seed = op[1]
         elif op[0] == "build":
@@ -328,7 +384,8 @@ def _run_history(case, store=None):
             o["seed"] = int(S.seed)
             o["seed_v"] = int(S.seed_v)
             o["xi"] = next(([e[1], e[2]] for e in evs if e[0] == "xi"), None)
-            o["fresh"] = _fresh(case, int(S.seed), list(S.N_vials), fresh, int(S.seed_v))
+            o["cfg"] = cfg
+            o["fresh"] = _fresh(case, int(S.seed), list(S.N_vials), fresh, int(S.seed_v), cfg)
         ops_obs.append(o)
     return ops_obs
 
@@ -337,8 +394,10 @@ def _run_fall(case):
     from ethz_snow.snowfall import Snowfall
 
     mark = _begin()
+    kw = _kw(case)
+    kw.setdefault("dt", DT)
     F = Snowfall(Nrep=case["nrep"], pool_size=case["pool"], k=_k(case), N_vials=tuple(case["nv"]),
-                 dt=DT, opcond=_opcond())
+                 opcond=_opcond(), **kw)
     evs = EVENTS[mark:]
     _note_shelf(F.Sf_template, evs)
     obs = {"init_evs": _plain(evs), "passes": []}
@@ -351,7 +410,7 @@ def _run_fall(case):
             t = st.pop("_c04")
             t["seed"] = int(i)
             t["digest_parent"] = _digest(st)
-            t["fresh"] = _fresh(case, int(i), case["nv"], fresh)
+            t["fresh"] = _fresh(case, int(i), case["nv"], fresh, (case.get("kw") or {}).get("seed_v"))
             tasks.append(t)
         # chunks: tasks grouped by the object copy they ran on, in execution order
         groups = {}
@@ -450,6 +509,9 @@ def _cmp_trace(ops_obs, trace, dis, where=""):
             if o["sched"] != trace["scheds"][runs]:
                 dis.append(f"{where}op {i} run: schedule impl {o['sched']} vs model {trace['scheds'][runs]}")
                 return
+            if o["cfg"] != trace["cfgs"][runs]:
+                dis.append(f"{where}op {i} run: configuration {o['cfg']} attached vs model {trace['cfgs'][runs]}")
+                return
             if o["xi"] != trace["xis"][runs]:
                 dis.append(f"{where}op {i} run: vial deviates drawn with (seed_v, N) = {o['xi']} vs model {trace['xis'][runs]}")
                 return
@@ -479,7 +541,7 @@ def compare(case, impl, model):
             _cmp_trace(impl["ops"], model["trace_old"], d_old)
             if not d_old:
                 dis[0] = "implementation follows the PRE-REPAIR model (runOld, defect F3), not the repaired one: " + dis[0]
-        _same_sched_same_stats([([o["sched"], o["xi"]], o["digest"]) for o in impl["ops"] if o["op"][0] == "run"], dis)
+        _same_sched_same_stats([([o["sched"], o["xi"], o["cfg"]], o["digest"]) for o in impl["ops"] if o["op"][0] == "run"], dis)
     elif case["kind"] == "record":
         for v in impl["variants"]:
             _cmp_trace(v["ops"], model["trace"], dis, where=f"storeStates={v['store']!r}: ")
@@ -490,9 +552,12 @@ def compare(case, impl, model):
                 drv = core.Driver()
         except Exception:
             drv = core.Driver()
-        pre = [["new", 2021] + list(case["nv"]), ["build"]]
+        pre = [["new", 2021] + list(case["nv"])]
+        if (case.get("kw") or {}).get("seed_v") is not None:
+            pre.append(["setSeedV", case["kw"]["seed_v"]])     # constructor argument = attribute before the build
+        pre.append(["build"])
         r0 = drv.call({"op": "c04_chunks", "sigmaPos": _sigma_pos(case), "pre": pre})["pre"]
-        if impl["init_evs"] != r0["evs"][0] + r0["evs"][1]:
+        if impl["init_evs"] != [e for evs in r0["evs"] for e in evs]:
             dis.append(f"Snowfall.__init__: events impl {impl['init_evs']} vs model {r0['evs']}")
         allruns = []
         for p in impl["passes"]:
@@ -541,7 +606,8 @@ def predicates(case, impl):
                 out.append(Failure(
                     clause="run_schedule_canonical", key=f"history_independent|Snowflake.run|{var}",
                     detail=f"after {[x['op'] for x in impl['ops'][:i]]} the run with seed {o['seed']}, seed_v {o['seed_v']}, N_vials "
-                           f"{o['sched']['nv']} differs bit-wise from Snowflake(seed={o['seed']}, seed_v={o['seed_v']}).run() "
+                           f"{o['sched']['nv']}, configuration {o['cfg']} = {_spec(case, o['cfg'])} differs bit-wise from a fresh "
+                           f"Snowflake(seed={o['seed']}, seed_v={o['seed_v']}) of that configuration "
                            f"(schedule used: {o['sched']})"))
                 break
     elif case["kind"] == "record":
@@ -560,8 +626,8 @@ def predicates(case, impl):
                 out.append(Failure(
                     clause="snowfall_rep_standalone", key=f"rep_standalone|Snowfall.run|{p['how']}|{var}",
                     detail=f"Snowfall(Nrep={case['nrep']}, pool_size={case['pool']}).run(how={p['how']!r}) "
-                           f"(passes {case['hows']}): repetitions {bad} differ bit-wise from "
-                           f"Snowflake(seed=i).run(); chunks {p['chunks']}"))
+                           f"(passes {case['hows']}, keyword arguments {case.get('kw')}): repetitions {bad} differ bit-wise "
+                           f"from Snowflake(seed=i, same keyword arguments).run(); chunks {p['chunks']}"))
         if len(impl["passes"]) > 1:
             a = impl["passes"][0]
             for b in impl["passes"][1:]:
@@ -583,13 +649,14 @@ def classify(case, impl):
     if case["kind"] == "history":
         tags.append(f"len={len(case['ops'])}")
         tags.append(f"runs={sum(1 for o in case['ops'] if o[0] == 'run')}")
-        for t in ("setN", "build", "setSeedV", "readShelf", "readInt"):
+        for t in ("setN", "build", "setSeedV", "readShelf", "readInt", "editCfg"):
             if any(o[0] == t for o in case["ops"]):
                 tags.append("has " + t)
         if any(o[0] == "setN" and o[3] > 1 or o[0] == "new" and o[4] > 1 for o in case["ops"]):
             tags.append("pallet shape")
     elif case["kind"] == "fall":
         tags += [f"hows={'+'.join(case['hows'])}", f"pool={case['pool']}", f"nrep={case['nrep']}"]
+        tags += [f"kw:{k}" for k in (case.get("kw") or {})]
     return tags
 
 
@@ -609,6 +676,20 @@ def nontrivial(case, impl):
 SHAPES = [[3, 3, 1], [2, 2, 1], [1, 3, 1], [2, 1, 1], [2, 2, 2], [3, 2, 1], [2, 3, 1], [3, 2, 1], [2, 3, 1]]
 SEEDS_V = [2024, 2, 7]
 SEEDS = [0, 1, 5, 7, 2021]
+
+
+def _cfg_specs(rng, n=3):
+    """alternative COMPLETE configurations of a case (index 0 is the base configuration)"""
+    out = [{}]
+    for _ in range(n):
+        rate = rng.choice([0.1, 0.2, 0.05, 0.25])
+        end = rng.choice([-45, -40, -50])
+        holding = rng.choice([None, None, [[-10, 100]], [[-5, 50], [-20, 60]], [[-20, 60], [-5, 50]]])
+        implied = (5 - end) / rate + sum(h[1] for h in holding or [])
+        t_tot = max(rng.choice([1000, 800, 1500]), 100 * (int(implied // 100) + 2))
+        out.append(dict(rate=rate, end=end, holding=holding, t_tot=t_tot, dt=rng.choice([5, 5, 2.5, 10]),
+                        how=rng.choice(["inplace", "inplace", "new"])))
+    return out
 
 
 def _history(rng, maxlen):
@@ -633,14 +714,17 @@ def _history(rng, maxlen):
                 ops += [["readShelf"], ["readInt"]]
             elif k < 0.65:
                 ops += [["readInt"], ["readShelf"]]
-        elif r < 0.97:
+        elif r < 0.955:
             ops.append(["setSeedV", rng.choice(SEEDS_V)])
+        elif r < 0.985:
+            ops.append(["editCfg", rng.randrange(4)])
         else:
             ops.append(["new", rng.choice(SEEDS)] + rng.choice(SHAPES))
     if rng.random() < 0.7 and len(ops) < maxlen:
         ops.append(["setSeed", rng.choice(SEEDS)])
     ops.append(["run"])
-    return dict(kind="history", sigma=sigma, ops=ops[-maxlen:] if ops[-maxlen:][0][0] == "new" else ops[:1] + ops[-(maxlen - 1):])
+    return dict(kind="history", sigma=sigma, cfgs=_cfg_specs(rng),
+                ops=ops[-maxlen:] if ops[-maxlen:][0][0] == "new" else ops[:1] + ops[-(maxlen - 1):])
 
 
 def _targeted(rng):
@@ -649,8 +733,14 @@ def _targeted(rng):
     s0, s1 = rng.choice(SEEDS), rng.choice(SEEDS)
     a, b = rng.choice([([3, 2, 1], [2, 3, 1]), ([2, 3, 1], [3, 2, 1]), ([3, 3, 1], [2, 2, 1]), ([2, 2, 1], [1, 3, 1])])
     v = rng.choice([2, 7])
-    k = rng.randrange(6)
-    if k == 0:
+    k = rng.randrange(10)
+    if k >= 6:
+        # the attached configuration is edited (in place / replaced) between runs
+        ops = [[["new", s0] + a, ["run"], ["editCfg", 1], ["run"]],
+               [["new", s0] + a, ["run"], ["editCfg", 1], ["setSeed", s1], ["run"]],
+               [["new", s0] + a, ["editCfg", 2], ["run"], ["editCfg", 0], ["run"]],
+               [["new", s0] + a, ["run"], ["editCfg", 1], ["run"], ["editCfg", 3], ["build"], ["run"]]][k - 6]
+    elif k == 0:
         ops = [["new", s0] + a, ["run"], ["setSeedV", v], ["run"]]
     elif k == 1:
         ops = [["new", s0] + a, ["setSeedV", v], ["run"], ["setSeedV", 2024], ["setSeed", s1], ["run"]]
@@ -662,7 +752,14 @@ def _targeted(rng):
         ops = [["new", s0] + a, ["build"], ["setN"] + b, ["readInt"], ["readShelf"], ["setSeed", s1], ["run"]]
     else:
         ops = [["new", s0] + a, ["run"], ["setN"] + b, ["setSeedV", v], ["readShelf"], ["setSeed", s1], ["run"]]
-    return dict(kind="history", sigma=sigma, ops=ops)
+    return dict(kind="history", sigma=sigma, ops=ops, cfgs=_cfg_specs(rng))
+
+
+KW_VARIANTS = [
+    {"seed_v": 7}, {"seed_v": 7, "dt": 2.5}, {"dt": 10}, {"initIce": "direct"}, {"solidificationThreshold": 0.5},
+    {"k_mod": {"int": 5, "ext": 40}}, {"configPath": "water:\n  cp_w: 4000\n"}, {"seed_v": 3, "initIce": "direct"},
+    {"seed": 99}, {"storeStates": None},
+]
 
 
 def _record(rng):
@@ -706,6 +803,13 @@ def cases(rng, tier):
                     if sigma == 0 and quick and (pool, nrep) not in ((2, 5), (3, 9)):
                         continue
                     yield dict(kind="fall", sigma=sigma, nv=[3, 3, 1], nrep=nrep, pool=pool, hows=[how])
+    # keyword arguments handed through to the template: repetition i = Snowflake(seed=i, same keyword arguments)
+    for kw in KW_VARIANTS:
+        for how in ("sequential", "async", "sync"):
+            if quick and how == "sync" and "seed_v" not in kw:
+                continue
+            yield dict(kind="fall", sigma=rng.choice([0.1, 0]), nv=rng.choice([[3, 3, 1], [2, 2, 1], [2, 3, 1]]), nrep=3,
+                       pool=2, hows=[how], kw=kw)
     # one Snowfall object run several times (sequential mutates the template)
     for hows in (["sequential", "sequential"], ["sequential", "async"], ["async", "sequential", "sync"]):
         for sigma in (0.1, 0):
